@@ -17,6 +17,7 @@ import sys
 
 from .framework import canon
 
+ALWAYS = 4294967295  # mask index meaning "on every call"
 BUILTIN_CLASSES = {}  # id -> python class, filled by class_table()
 
 
@@ -146,8 +147,8 @@ class Runtime:
         def extract(exc):
             k = self.ext_calls
             self.ext_calls += 1
-            if k in fail:
-                raise self.make_exc(fail[k])
+            if k in fail or ALWAYS in fail:
+                raise self.make_exc(fail.get(k, fail.get(ALWAYS)))
             return shared
 
         return extract
@@ -216,7 +217,7 @@ class Runtime:
             return {"uuid": int(v[5:])}
         if key == "timestamp" and isinstance(v, float) and v == int(v):
             return {"ts": int(v)}
-        if key == "traceback" and isinstance(v, str):
+        if key == "traceback" and isinstance(v, str) and mtype == "eliot:traceback":
             return "tb"
         if key == "message" and mtype in ("eliot:destination_failure", "eliot:serialization_failure") and isinstance(v, str):
             try:
